@@ -39,6 +39,17 @@ Proof.
 Qed.
 Print Assumptions C05_reject_changes_nothing_else.
 
+(* liveness of the routing, from any reachable state: a call that has sent its request and whose response is the
+   next one on the wire completes with exactly that response, whatever other calls (same id or not) did before *)
+Theorem C05_answered_call_completes : forall ids responses ls r q x rest,
+  let s := run true (init ids responses) ls in
+  get (reqs s) r = Some q -> q_pc q = P2 -> q_slot q = None -> matcher s = M0 ->
+  incoming s = x :: rest -> fst x = q_id q ->
+  let s' := run true s [RLookup; RDeliver; TakeResp r] in
+  exists q', get (reqs s') r = Some q' /\ q_res q' = RResp x /\ q_pc q' = P3.
+Proof. exact answered_call_completes. Qed.
+Print Assumptions C05_answered_call_completes.
+
 (* the tree as found: with colliding ids a newer request loses its entry, its response
    goes to the stream and the caller is left waiting (7-step witness, replayed with gates) *)
 Theorem C05_refuted_as_found :
